@@ -4,7 +4,7 @@ CONSTANTS
   PatternSets = {"default", "luaonly"}
   MapSets = {FALSE, TRUE}
   StrictSets = {FALSE, TRUE}
-  RootSets = {"w", "w+lib"}
+  RootSets = {"w+lib"}
   MaxSteps = 3
 VIEW View
 INVARIANTS TreeOk FuzzyOk NameOk Agree RemovedUnresolvable
